@@ -14,8 +14,8 @@ ID = 'C17'
 LEVEL = 'fault_enumeration'
 RULE = ('queries {finite flat facts; a fact whose second argument is a 60-element list (the limit strikes inside the element-by-element match, after the first argument was bound) - compiled and as a dynamic fact, against ground lists and lists of variables; len/2 on lists of length 5, 20, 60; app/3 splitting a list; nat/1 and even/odd '
         '(infinitely many answers, each deeper); left recursion lp(X) :- lp(X). lp(a). (diverges before any answer); a '
-        'rule with a deep failing branch between answers; registered Python predicates whose clean-up (finally) code needs 0, 3, 12 or 30 nested calls, queried directly and through call/1; predicates answered from two sources (dynamic facts followed by compiled clauses, dynamic facts followed by a Python predicate)} x EVERY recursion_limit from 8 to 400 (each value moves the '
-        'point at which the limit strikes; quick: every value up to 89, then every 7th) x projection functions {identity, observe the variables, '
+        'rule with a deep failing branch between answers; registered Python predicates whose clean-up (finally) code needs 0, 3, 12 or 30 nested calls, queried directly and through call/1; predicates answered from two sources (dynamic facts followed by compiled clauses, dynamic facts followed by a Python predicate); a Python predicate that yields True; a dynamic fact with a variable 12 levels deep (after every call two uses of it at once must still be independent)} x EVERY recursion_limit from 8 to 400 (each value moves the '
+        'point at which the limit strikes; quick: every value up to 89, then every 14th) x projection functions {identity, observe the variables, '
         'raise ValueError at the k-th answer for k=1..5, raise RuntimeError at the 2nd, raise StopIteration at the 2nd, raise KeyboardInterrupt at the 1st / SystemExit at the 2nd / an own BaseException subclass at the 2nd, run a bounded sub-query on the same engine for every answer (nested evaluate_bounded, inner limit 150 / 500)}, '
         'called from a shallow stack, in every 5th case while another query of the same engine is suspended at its first answer (it must be undisturbed afterwards); plus bounds ABOVE the interpreter\'s own limit (1200, 3000, 10000) for nat/1, ev/1, a compiled recursion over a dynamic base fact and len/2 of a 700-element list, with the identity projection and projections raising at answer 1, 200, 450, 900, 1400 (each call in a forked child: a dying interpreter is a violation); plus, for 8 queries at every limit 8..63, the same call in a quiet process and in one with every logger at DEBUG, a stream handler attached and warnings turned into errors, which must return the same. Checked: no RecursionError escapes; the result is a prefix of RefProlog\'s answer '
         'sequence (projected), and the whole sequence when the limit exceeds the measured stack depth of an unbounded '
@@ -28,6 +28,12 @@ ASSUMPTIONS = ['YLDPROLOG_VERIF=1 hook', 'one thread, evaluate_bounded called fr
 EXHAUSTIVE = True
 N, X, Y, T, H, R = V('N'), V('X'), V('Y'), V('T'), V('H'), V('R')
 ANON = ('v', ('_', 1))
+def DEEP(x, n=12):
+    for _ in range(n):
+        x = F('s', x)
+    return x
+
+
 PROGRAM = [
     (F('col', A('red')), None), (F('col', A('green')), None), (F('col', A('blue')), None),
     (F('len', NIL, A('z')), None), (F('len', L([ANON], T), F('s', N)), call(F('len', T, N))),
@@ -40,6 +46,9 @@ PROGRAM = [
     (F('big', A('first'), L([C(i) for i in range(60)])), None), (F('big', A('second'), L([C(i) for i in range(30)] + [A('x')])), None),
     # predicates whose answers come from two sources: dynamic facts first, then compiled clauses
     (F('mixd', A('c1')), None), (F('mixd', A('c2')), None),
+    # a use of the fact vfact(s^12(_)) twice at once, with different bindings (run AFTER a bounded call,
+    # as a probe that the engine is what it was)
+    (A('vboth'), conj(call(F('vfact', V('Pa'))), call(F('vfact', V('Pb'))), call(F('=', V('Pa'), DEEP(A('a')))), call(F('=', V('Pb'), DEEP(A('b')))))),
     (F('deep', A('first')), None), (F('deep', X), conj(call(F('len', V('Lg'), F('s', F('s', F('s', A('z')))))), call(F('nat', X)))),
 ]
 
@@ -48,7 +57,7 @@ PY_DEPTHS = [0, 3, 12, 30]
 
 
 DYN_FACTS = [F('bigd', A('first'), L([C(i) for i in range(60)])), F('bigd', A('second'), L([C(i) for i in range(45)] + [A('x')])),
-             F('mixd', A('d1')), F('mixd', A('d2')), F('pyg3', C(0))]
+             F('mixd', A('d1')), F('mixd', A('d2')), F('pyg3', C(0)), F('vfact', DEEP(V('Fv')))]
 
 
 def register_python(yp):
@@ -77,8 +86,15 @@ def _register_python(yp):
     for d in PY_DEPTHS:
         yp.register_function('pyg%d' % d, make(d))
 
+    def pyt3(arg1):
+        # a Python predicate that yields True for each of its three solutions
+        for k in (1, 2, 3):
+            for _ in impl.engine.unify(arg1, k):
+                yield True
+    yp.register_function('pyt3', pyt3)
 
-PY_FACTS = [(F('pyg%d' % d, C(k)), None) for d in PY_DEPTHS for k in (1, 2, 3)]
+
+PY_FACTS = [(F('pyg%d' % d, C(k)), None) for d in PY_DEPTHS for k in (1, 2, 3)] + [(F('pyt3', C(k)), None) for k in (1, 2, 3)]
 
 
 def lst(n):
@@ -92,16 +108,16 @@ def queries():
         [('big-dynamic', F('bigd', V('Q'), lst(60))), ('big-variables', F('big', V('Q'), L([V('E%d' % i) for i in range(60)]))),
          ('big-dynamic-variables', F('bigd', V('Q'), L([V('E%d' % i) for i in range(45)], V('Et')))),
          ('big', F('big', V('Q'), lst(60))), ('big-tail', F('big', V('Q'), L([C(i) for i in range(30)], V('Q2')))), ('same', F('eqq', lst(60), lst(60)))] + \
-        [('mixed-sources', F('mixd', V('Q')))] + [('pyg%d' % d, F('pyg%d' % d, V('Q'))) for d in PY_DEPTHS] + [('call-pyg12', F('call', F('pyg12', V('Q'))))]
+        [('mixed-sources', F('mixd', V('Q'))), ('python-yielding-true', F('pyt3', V('Q'))), ('variable-fact', F('vfact', V('Q')))] + [('pyg%d' % d, F('pyg%d' % d, V('Q'))) for d in PY_DEPTHS] + [('call-pyg12', F('call', F('pyg12', V('Q'))))]
 
 
 def bounds(tier):
-    return {'recursion_limits': 'every value 8..89 and every 7th of 90..400' if tier == 'quick' else 'every value 8..400'}
+    return {'recursion_limits': 'every value 8..89 and every 14th of 90..400' if tier == 'quick' else 'every value 8..400'}
 
 
 def limits(tier):
     if tier == 'quick':
-        return list(range(8, 90)) + list(range(90, 401, 7))
+        return list(range(8, 90)) + list(range(90, 401, 14))
     return list(range(8, 401))
 
 
@@ -233,6 +249,11 @@ def one_call(pytext, qname, goal, limit, pname, exp, need_depth, bystander=False
         next(bq)
         by = (bv, bq)
     r = _one_call(yp, qname, goal, limit, pname, exp, need_depth)
+    if r[0] is None and qname == 'variable-fact':
+        # whatever the bounded call went through, the fact is what it was: two uses at once, bound differently
+        n2 = len(list(yp.query('vboth', [])))
+        if n2 != 1:
+            return ('engine-changed-by-bounded-call', 'after the call, vboth :- vfact(A), vfact(B), A = s^12(a), B = s^12(b) has %d answers instead of 1 (the fact is vfact(s^12(_)))' % n2), None
     if by is not None and r[0] is None:
         bv, bq = by
         rest = [impl.observe([bv])]
